@@ -421,10 +421,6 @@ func registerNatives(ex *Explorer) {
 		return nil
 	}
 
-	// context
-	I["context.Background"] = func(in *Interp, fn *ssa.Function, a []Value) Value { return IfaceVal{} }
-	I["context.TODO"] = func(in *Interp, fn *ssa.Function, a []Value) Value { return IfaceVal{} }
-	I["github.com/pegnet/pegnetd/node.isDone"] = func(in *Interp, fn *ssa.Function, a []Value) Value { return in.F.False }
 }
 
 func (in *Interp) stringSlice(parts []string) SliceVal {
